@@ -454,7 +454,9 @@ impl Variable {
 fn slice(array: &[Rcvar], start: Option<i32>, stop: Option<i32>, step: i32) -> Vec<Rcvar> {
     let mut result = vec![];
     let len = array.len() as i32;
-    if len == 0 {
+    // A step of zero selects nothing (the interpreter reports it as an invalid
+    // slice before getting here; this method has no way to report an error).
+    if len == 0 || step == 0 {
         return result;
     }
     let a: i32 = match start {
